@@ -992,6 +992,7 @@ func TestVerif_C05(t *testing.T) {
 		fmt.Printf("INCONCLUSIVE property=C05 reason=history monitor without events\n")
 		t.Fail()
 	}
+	run.RaceCheck("") // races are not this property's business: reports are kept as NOTE lines for diagnosis
 	if n := run.Counter("rig_failures"); n > 0 {
 		fmt.Printf("INCONCLUSIVE property=C05 reason=%d rig failures (see NOTE lines)\n", n)
 		t.Fail()
